@@ -1,6 +1,6 @@
 """Per-property configuration of the checks (parts, bounds, non-triviality rules, evidence text)."""
 
-HARNESS_SOURCES = ["main.cc", "engine_poly.cc", "engine_tet.cc", "engine_hex.cc", "mon_hist.cc", "mon_c12.cc", "mon_iter.cc", "mon_query.cc"]
+HARNESS_SOURCES = ["main.cc", "engine_poly.cc", "engine_tet.cc", "engine_hex.cc", "mon_hist.cc", "mon_c12.cc", "mon_iter.cc", "mon_query.cc", "mon_c13.cc", "mon_c14.cc"]
 
 def cnt(js, k):
     return js.get("cnt", {}).get(k, 0)
@@ -148,6 +148,32 @@ PROPS = {
   "min_counts": {"twin.comparisons": 30000, "disabled-circulators": 20000},
   "assumptions": COMMON_ASSUME + ["definitions/properties in deleted-but-uncollected slots are not compared"],
  },
+ "C13": {
+  "level": "exploration",
+  "technique": "snapshot equality between source and copy restricted to what a copy promises; then mutation histories on one side with full-snapshot equality of the other side after every step (both directions); held handles probed under ASan",
+  "parts": [
+    {"name": "dbg", "flavor": "asan-dbg", "monitor": "C13", "cases": {"quick": 800, "thorough": 12000}},
+    {"name": "rel", "flavor": "asan-rel", "monitor": "C13", "cases": {"quick": 200, "thorough": 3000}},
+  ],
+  "nontrivial": {"fn": lambda js: cnt(js, "copies") >= 1 and cnt(js, "independence-checks") >= 5,
+                 "text": "case = source mesh reached by a history (pending deletions most of the time, mix of shared/private/persistent properties of 7 value types, live handles), then one of: copy construction, assignment over a used mesh (holding handles, colliding property names every second case), assignment over an empty mesh, self-assignment, chain c=b=a, mixed-kernel round trip tet/hex -> poly -> tet/hex. The copy must equal the source in entities, definitions, positions, deletion state, modes, incidence settings and persistent properties; non-persistent ones must not be findable; then both sides are mutated in turn (topology, positions via tags, property writes) while the complete snapshot of the other side - including every held property array - must not change. Handles held across assignment: size == new counts, attached, every element readable, not findable by name (or a different storage). non-trivial = >=1 copy and >=5 independence comparisons; distinct by operation digest"},
+  "floor": {"quick": 200, "thorough": 3000},
+  "min_counts": {"copies": 500, "independence-checks": 10000, "orphan-handles": 500},
+  "assumptions": COMMON_ASSUME + ["identity tags are persistent properties in this monitor so that the copy can be driven further by the engine"],
+ },
+ "C14": {
+  "level": "exploration",
+  "technique": "executable reference model of the property registry driven by the same random call sequence; storage identity observed by write-through; exceptions and flags compared; ASan+LSan for lifetime",
+  "parts": [
+    {"name": "dbg", "flavor": "asan-dbg", "monitor": "C14", "cases": {"quick": 3000, "thorough": 60000}},
+    {"name": "rel", "flavor": "asan-rel", "monitor": "C14", "cases": {"quick": 600, "thorough": 10000}},
+  ],
+  "nontrivial": {"fn": lambda js: cnt(js, "request.hit") + cnt(js, "create.refused") >= 1 and cnt(js, "transitions.done") >= 1 and cnt(js, "observations") >= 30,
+                 "text": "case = random program of 60 (thorough 120) calls over up to 5 meshes: request/create_shared/create_persistent/create_private/get_property/property_exists with 4 value types x 7 entity kinds x colliding names {a,b,c,''}; set_shared/set_persistent/set_name; handle copy/move/drop; clear_*_props/clear_all_props/clear; mesh copy/assign/destroy while handles survive; random teardown order. After EVERY call: n_props, n_persistent_props and persistent iteration vs the model, every handle's shared/persistent/name/attached/size, storage identity of random handle pairs by write-through, exceptions vs the model. non-trivial = >=1 name collision (request hit or refused create), >=1 transition, >=30 observations; distinct by operation digest"},
+  "floor": {"quick": 800, "thorough": 15000},
+  "min_counts": {"identity.same": 3000, "identity.different": 20000, "transitions.thrown": 1000, "mesh.destroy": 1000, "mesh.assign": 300},
+  "assumptions": COMMON_ASSUME + ["set_name is exercised inside the domain that keeps shared names unique (see DESIGN.md: renaming a shared property onto a taken name is not checked by the library and is recorded separately)", "LeakSanitizer reports leaks at process exit"],
+ },
  "C17": {
   "level": "exploration",
   "technique": "handle-level before/after snapshot of every swap (tags, flags, all properties side by side), double-swap and self-swap identity, plus model and incidence oracles",
@@ -186,6 +212,10 @@ LEVEL_TEXT = {
          "note": "trusted: snapshot completeness (definitions, flags, counts, modes, raw caches, tag and user property arrays, persistent properties, positions)"},
  "C12": {"text": "Runtime exploration with a differential twin: an all-incidences mesh and a partially-disabled, toggled mesh run the same call stream; equality handle for handle after every step, plus C01/C09 oracles on the toggled mesh and invalid-circulator probes.",
          "note": "trusted: Twin::apply replays exactly the recorded API calls; the twin itself is the library (a defect common to both paths is caught by C01/C02 instead)"},
+ "C13": {"text": "Runtime exploration: copies are compared with their source on a complete snapshot and then both meshes are mutated in turn under ASan while the other one's snapshot (including held property arrays) must stay bit-identical.",
+         "note": "trusted: snapshot completeness; shared storage would show as a changed snapshot or an ASan report"},
+ "C14": {"text": "Runtime exploration against an executable model of the registry (about 60 lines): every observable of the registry is compared after every call of random programs; lifetime errors surface as ASan/LSan reports.",
+         "note": "trusted: the registry model; write-through as the identity observation"},
  "C17": {"text": "Runtime exploration: every swap is observed at handle level (tags, deletion flags, all property arrays side by side) before/after, repeated (identity) and with equal arguments (no-op), combined with the model and incidence oracles.",
          "note": "trusted: snapshots read through the public API; contents of deleted slots unspecified"},
 }
